@@ -409,6 +409,34 @@ func cc(l, op, r string, val bool) string {
 	return fmt.Sprintf("%s%s%s=%v", l, op, r, val)
 }
 
+// ccBoth: both canonical spellings of a comparison (operands in either order); condKey decides the
+// order with type information (constants go right), cc only by spelling, so a named constant can end
+// up on either side.
+func ccBoth(l, op, r string, val bool) []string {
+	norm := func(l, op, r string, val bool) string {
+		switch op {
+		case "<":
+			op, val = ">=", !val
+		case "<=":
+			op, val = ">", !val
+		case "!=":
+			op, val = "==", !val
+		}
+		return fmt.Sprintf("%s%s%s=%v", l, op, r, val)
+	}
+	flip := map[string]string{"<": ">", "<=": ">=", ">": "<", ">=": "<=", "==": "==", "!=": "!="}[op]
+	return []string{norm(l, op, r, val), norm(r, flip, l, val)}
+}
+
+func hasCmp(pa paths.Path, l, op, r string, val bool) bool {
+	for _, k := range ccBoth(l, op, r, val) {
+		if pa.HasArg("COND", k) {
+			return true
+		}
+	}
+	return false
+}
+
 func (c *hmapClassifier) condEvent(cond ast.Expr, val bool) *paths.Event {
 	s := c.norm(cond)
 	if ns, nv, ok := c.normCmp(cond, val); ok {
